@@ -46,6 +46,8 @@ class FuncSpec(object):
     self.fresh_self = d.get('fresh_self', False)
     self.entry_assume = list(d.get('entry_assume', ()))
     self.allocates = d.get('allocates', False)
+    self.trusted = d.get('trusted', False)   # contract assumed, body not verified (listed in evidence)
+    self.ghost = list(d.get('ghost', ()))   # [{'after': '<stmt text>', 'do': ['<ghost stmt>', ...]}]
 
 
 class ExternSpec(object):
